@@ -12,8 +12,10 @@ import (
 	"fmt"
 	"os"
 	"path/filepath"
+	"runtime/debug"
 	"sort"
 	"strings"
+	"sync"
 	"testing"
 	"time"
 
@@ -56,6 +58,10 @@ type Request struct {
 	Recv   string   `json:"recv,omitempty"` // state of the receiver: mutable frozen iterating
 	Via    string   `json:"via,omitempty"`  // api | source
 	Gen    string   `json:"gen,omitempty"`  // which source generator produced Src (classification only)
+	// StackMB caps the Go stack of the child for this request (default 128). Only inputs that nest tens of
+	// thousands of levels need more (the parser legitimately uses a few hundred MB on a 64 KiB "((((..."); everywhere
+	// else a small cap makes runaway recursion die in a fraction of a second instead of 10-20 s.
+	StackMB int `json:"stack_mb,omitempty"`
 }
 
 type Reply struct {
@@ -94,6 +100,15 @@ var poolNames = []string{
 	"time", "duration", "module-json",
 	"iter-codepoints", "iter-elems", "iter-bytes-elems", "iter-ords", "iter-empty", "d-keys-view", "l-one", "s-digits", "t-mixed",
 }
+
+var corePool = func() map[string]bool {
+	m := map[string]bool{}
+	for _, n := range []string{"none", "true", "i0", "i1", "i-1", "i2^31", "i2^63", "i-2^63", "i2^64", "f0", "f0.5", "fnan", "finf", "f-inf", "f2^53",
+		"s-a", "s-percent", "b-all", "l-ints", "t-ints", "d-str", "set-ints", "range-small", "range-huge"} {
+		m[n] = true
+	}
+	return m
+}()
 
 var helperFns = func() starlark.StringDict {
 	g, err := starlark.ExecFileOptions(&syntax.FileOptions{Recursion: true}, &starlark.Thread{}, "pool.star",
@@ -360,9 +375,55 @@ func catalogue() map[string]calleeMaker {
 			}
 		}
 	}
+	for name, fn := range opFns() {
+		fn := fn
+		out["op:"+name] = func(string) starlark.Value { return fn }
+	}
 	out["struct"] = func(string) starlark.Value { return starlark.NewBuiltin("struct", starlarkstruct.Make) }
 	out["module"] = func(string) starlark.Value { return starlark.NewBuiltin("module", starlarkstruct.MakeModule) }
 	return out
+}
+
+// opExprs are operators and other non-call constructs applied to pool values: each becomes a callee
+// "op:<text>" (a Starlark function compiled from the text), so the interpreter's operator paths see the
+// same hostile operands as the built-ins do.
+var opExprs = []struct{ params, body string }{
+	{"a, b", "return a + b"}, {"a, b", "return a - b"}, {"a, b", "return a * b"}, {"a, b", "return a / b"}, {"a, b", "return a // b"},
+	{"a, b", "return a % b"}, {"a, b", "return a & b"}, {"a, b", "return a | b"}, {"a, b", "return a ^ b"}, {"a, b", "return a << b"},
+	{"a, b", "return a >> b"}, {"a, b", "return a < b"}, {"a, b", "return a <= b"}, {"a, b", "return a == b"}, {"a, b", "return a != b"},
+	{"a, b", "return a in b"}, {"a, b", "return a not in b"}, {"a, b", "return a[b]"}, {"a, b", "return a and b"}, {"a, b", "return a or b"},
+	{"a", "return -a"}, {"a", "return +a"}, {"a", "return ~a"}, {"a", "return not a"},
+	{"a, b, c", "return a[b:c]"}, {"a, b, c, d", "return a[b:c:d]"}, {"a, b", "return a[::b]"}, {"a, b", "return a[b:]"},
+	{"a, b, c", "return a if b else c"}, {"a, b", "return [x for x in a if x in b]"}, {"a, b", "return {a: b}"}, {"a, b", "return {x: b for x in a}"},
+	{"a, b", "return (a, b) < (b, a)"}, {"a, b", "return [a, b] == [b, a]"}, {"a, b", "return a(*b)"}, {"a, b", "return a(**b)"}, {"a, b", "return a(b)"},
+	{"a, b", "a += b\n    return a"}, {"a, b", "a *= b\n    return a"}, {"a, b", "a |= b\n    return a"}, {"a, b", "a %= b\n    return a"},
+	{"a, b, c", "a[b] = c\n    return a"}, {"a, b, c", "a[b] += c\n    return a"}, {"a", "x, y = a\n    return x"}, {"a", "[x, (y, z)] = a\n    return z"},
+	{"a, b", "for x in a:\n        b += x\n    return b"}, {"a, b", "for x, y in a:\n        b = b + y\n    return b"},
+	{"a, b", "return \"%s %r\" % (a, b)"}, {"a, b", "return a % (b,)"}, {"a, b", "return a.format(b, x = b)"},
+	{"a, b", "return sorted(a, key = b)"}, {"a, b", "return [a] * 3 + [b]"}, {"a, b", "return a < b or a > b or a == b"},
+}
+
+var (
+	opOnce sync.Once
+	opMap  map[string]starlark.Value
+)
+
+func opFns() map[string]starlark.Value {
+	opOnce.Do(func() {
+		var sb strings.Builder
+		for i, o := range opExprs {
+			fmt.Fprintf(&sb, "def op_%d(%s):\n    %s\n", i, o.params, o.body)
+		}
+		g, err := starlark.ExecFileOptions(&syntax.FileOptions{Set: true}, &starlark.Thread{}, "ops.star", sb.String(), nil)
+		if err != nil {
+			panic("ops.star: " + err.Error())
+		}
+		opMap = map[string]starlark.Value{}
+		for i, o := range opExprs {
+			opMap[strings.ReplaceAll(o.body, "\n    ", "; ")] = g[fmt.Sprintf("op_%d", i)]
+		}
+	})
+	return opMap
 }
 
 func handle(req Request) (rep Reply) {
@@ -375,6 +436,11 @@ func handle(req Request) (rep Reply) {
 		}
 		liveIters = nil
 	}()
+	mb := req.StackMB
+	if mb == 0 {
+		mb = 128
+	}
+	defer debug.SetMaxStack(debug.SetMaxStack(mb << 20))
 	switch req.Kind {
 	case "list":
 		var names []string
@@ -407,6 +473,8 @@ func handle(req Request) (rep Reply) {
 		}
 		return
 	case "call":
+		// Calls on pool values need no deep Go stack (the deepest pool value nests 20000 levels); a smaller cap than
+		// the 1 GB default makes runaway recursion die in a fraction of a second instead of many seconds.
 		mk, ok := catalogue()[req.Callee]
 		if !ok {
 			return Reply{Outcome: "error", Msg: "unknown callee"}
@@ -533,7 +601,15 @@ func checkCase(req Request) error {
 		vk.S.Class("excluded:unbounded-builtin-iteration")
 		return nil
 	}
-	err := worker.Do(req, &rep, 20*time.Second)
+	t0 := time.Now()
+	limit := 20 * time.Second
+	if req.Kind == "call" {
+		limit = 8 * time.Second
+	}
+	err := worker.Do(req, &rep, limit)
+	if d := time.Since(t0); d > 500*time.Millisecond && os.Getenv("VERIF_C02_TIMING") != "" {
+		fmt.Fprintf(os.Stderr, "SLOW %.1fs kind=%s gen=%s callee=%q args=%v kw=%v src=%q err=%v\n", d.Seconds(), req.Kind, req.Gen, req.Callee, req.Args, req.KwV, clip(string(req.Src), 60), err != nil)
+	}
 	if err != nil {
 		var d *vk.Death
 		if errors.As(err, &d) {
@@ -709,17 +785,17 @@ func genSource(t *rapid.T) Request {
 			}
 		}
 		req.Src = []byte(strings.Join(toks, ""))
-	case 7: // structural bomb: 64 KiB of one nesting construct
+	case 7: // a few thousand repetitions of one nesting construct (the 64 KiB ones are enumerated by TestPropBombs)
 		b := bombs[vk.Uniform(t, len(bombs))]
-		n := 65536 / len(b)
-		s := strings.Repeat(b, n)
+		s := strings.Repeat(b, 1+vk.Uniform(t, 4000/len(b)))
 		switch vk.Uniform(t, 3) {
 		case 0:
-			s = "x = " + s[:len(s)-8]
+			s = "x = " + s
 		case 1:
 			s = s + "0"
 		}
 		req.Src = []byte(s)
+		req.Gen = "small-bomb"
 	case 8: // random bytes biased to ASCII
 		n := vk.Uniform(t, 200)
 		b := make([]byte, n)
@@ -888,7 +964,7 @@ func TestPropGraphCatalogue(t *testing.T) {
 
 func TestPropSources(t *testing.T) {
 	defer worker.Recycle()
-	vk.Rapid(t, subCase, vk.N(2500, 30000), genSource)
+	vk.Rapid(t, subCase, vk.N(900, 30000), genSource)
 }
 
 // ---------------------------------------------------------------- generators: calls
@@ -924,12 +1000,43 @@ func genCall(t *rapid.T) Request {
 	return req
 }
 
+// 64 KiB of one nesting construct, in three framings, each under a seeded option vector: enumerated.
+func TestPropBombs(t *testing.T) {
+	defer worker.Recycle()
+	vk.S.SetExhaustive("64KiB-bomb-per-nesting-construct-x-3-framings", true)
+	vk.Enum(t, subCase, func(yield func(Request) bool) {
+		i := 0
+		for _, b := range bombs {
+			for framing := 0; framing < 3; framing++ {
+				i++
+				if !vk.Mine(i) {
+					continue
+				}
+				s := strings.Repeat(b, 65536/len(b))
+				switch framing {
+				case 0:
+					s = "x = " + s[:len(s)-8]
+				case 1:
+					s = s + "0"
+				}
+				if len(s) > 65536 {
+					s = s[:65536]
+				}
+				opts := (i*7 + vk.Seed()*13) % 64
+				if !yield(Request{Kind: "src", Src: []byte(s), Opts: opts, Budget: 100000, Gen: "bomb-64k", StackMB: 1024}) {
+					return
+				}
+			}
+		}
+	})
+}
+
 func TestPropCalls(t *testing.T) {
 	defer worker.Recycle()
 	if err := loadCallees(); err != nil {
 		t.Fatalf("cannot list callees: %v", err)
 	}
-	vk.Rapid(t, subCase, vk.N(6000, 100000), genCall)
+	vk.Rapid(t, subCase, vk.N(2500, 100000), genCall)
 }
 
 // Every callee with no argument and with each single pool value (exhaustive over callee x pool for arity <= 1).
@@ -978,8 +1085,19 @@ func TestPropCallsArity2(t *testing.T) {
 					if !vk.Mine(i) {
 						continue
 					}
-					if !vk.Thorough() && (i/2+vk.Seed()*7)%200 != 0 {
-						continue
+					// quick: a seeded 1/300 slice of the pairs; for the operator callees every pair of the core pool
+					// (boundary scalars and one value of each container kind) and 1/64 of the other pairs
+					if !vk.Thorough() {
+						every := 300
+						if strings.HasPrefix(c, "op:") {
+							every = 64
+							if corePool[p] && corePool[q] {
+								every = 1
+							}
+						}
+						if (i/2+vk.Seed()*7)%every != 0 {
+							continue
+						}
 					}
 					if !yield(Request{Kind: "call", Callee: c, Args: []string{p, q}, Budget: 100000, Recv: "mutable", Via: []string{"api", "source"}[i%2]}) {
 						return
@@ -1013,7 +1131,7 @@ func FuzzSource(f *testing.F) {
 		if len(src) > 65536 {
 			return
 		}
-		req := Request{Kind: "src", Src: src, Opts: int(opts) % 64, Budget: 1000}
+		req := Request{Kind: "src", Src: src, Opts: int(opts) % 64, Budget: 1000, StackMB: 1024}
 		if err := subCase.Check(req); err != nil {
 			vk.Violation("case", req, err)
 			t.Fatalf("%v", err)
